@@ -12,7 +12,7 @@ func init() {
 	register(&PropDef{
 		ID:    "C30",
 		Pkgs:  []string{"grpc"},
-		Claim: "Decides the structural part: the channel state is stored only when the current state is not SHUTDOWN and differs from the new one, under the state mutex, and every stored change closes-and-clears the notification channel; WaitForStateChange obtains the notification channel before it reads the state; a subchannel's state is stored in exactly one function, whose every caller holds the subchannel mutex, which always forwards the new state to the LB-policy wrapper, and that forwarding only schedules a closure on the wrapper's serializer which drops the update once the balancer is gone; READY is reported only from the health-check start (when health checking does not manage the state) or by the health checker's callback, and that callback applies a report only while the subchannel still uses the very transport the checker was started for; after TRANSIENT_FAILURE the connection loop reports only IDLE.",
+		Claim: "Decides the structural part: the channel state is stored only when the current state is not SHUTDOWN and differs from the new one, under the state mutex, and every stored change closes-and-clears the notification channel; WaitForStateChange obtains the notification channel before it reads the state; a subchannel's state is stored in exactly one function, whose every caller holds the subchannel mutex, which always forwards the new state to the LB-policy wrapper, and that forwarding only schedules a closure on the wrapper's serializer which drops the update once the balancer is gone; READY is reported only from the health-check start (when health checking does not manage the state) or by the health checker's callback, and that callback applies a report only while the subchannel still uses the very transport the checker was started for; after TRANSIENT_FAILURE the connection loop reports only IDLE. A state report is dropped only when the state is unchanged, and the subchannel mutex is balanced in every subchannel function (including the hand-over to the connection loop, which is entered holding it and releases it on every exit).",
 		NotDecided:  []string{"missed or reordered notifications across schedules", "the full legal-transition relation of subchannel states over all event orders"},
 		Assumptions: []string{"callbacks on one serializer run in FIFO order (decided under C31)"},
 		Technique:   "static analysis: who-may-write, dominating guards on go/ssa branch facts, must-lockset with call-site checking, ordering (dominance), must-pass-through",
